@@ -14,9 +14,13 @@ immutable Sender.agent, Sender.signer, Sender.log, Sender.BatchSize, Sender.TTL,
 func Sender.doSign
   props C17
   requires !isnil(s.signer) && !isnil(s.log)
-  modifies signCalls
+  modifies signCalls, lastSigned
   ensures C17/signed-once: signCalls == old(signCalls) + 1
   ensures C17/snapshot-with-its-signature: isnil(result_1) ==> result_0 != nil && result_0.Snapshot == snapshot
+  // "the signature binds its content": the signed message is the text of EVERY field of the
+  // snapshot, in full (what fmt prints by reflection; a String() method on the type would be
+  // printed instead, and this clause then no longer follows)
+  ensures C17/every-field-is-signed: snapshot != nil ==> lastSigned == str_bytes(printSnap(snapshot.Version, bytes(snapshot.EventDigest), bytes(snapshot.HistoryDigest), bytes(snapshot.HyperDigest)))
 
 func Sender.newBatch
   props C17
@@ -27,8 +31,8 @@ func Sender.newBatch
 func Sender.batcher
   props C17
   requires s.BatchSize >= 1 && s.agent != nil && !isnil(s.signer) && !isnil(s.log)
-  modifies everything, signCalls, publishCount, lastPublishedTTL, lastPublishedBatch, recvs
-  loop 1 modifies everything, signCalls, publishCount, lastPublishedTTL, lastPublishedBatch, recvs
+  modifies everything, signCalls, lastSigned, publishCount, lastPublishedTTL, lastPublishedBatch, recvs
+  loop 1 modifies everything, signCalls, lastSigned, publishCount, lastPublishedTTL, lastPublishedBatch, recvs
   loop 1 invariant C17/batch-size-bound: batch != nil && len(batch.Snapshots) <= s.BatchSize
   loop 1 invariant C17/published-with-ttl: publishCount == old(publishCount) || (lastPublishedTTL == s.TTL && lastPublishedBatch)
   // nothing is dropped on the way in: every snapshot this batcher takes from the channel is
